@@ -90,7 +90,9 @@ func main() {
 					os.Exit(2)
 				}
 				r.re = regexp.MustCompile(pat)
-				r.repl = repl
+				// Commas and semicolons separate rules and spec parts: in a
+				// replacement they are written \x2c and \x3b.
+				r.repl = strings.NewReplacer(`\x2c`, ",", `\x3b`, ";").Replace(repl)
 			case "calls", "callsafter":
 				if r.re == nil {
 					fmt.Fprintf(os.Stderr, "instrument: rule %q needs a regexp\n", rs)
